@@ -241,4 +241,39 @@ def StX.erase (s : StX σ α β) : St σ α β :=
   { el := s.el, nCount := s.nCount, bufIn := s.bufIn,
     bufOut := s.bufOut.flatMap (fun p => match p with | .done r => r | .gen => []) }
 
+/-! ## specification-side definitions (evaluated by the driver, used by `Lemmas/C16X.lean`, `Props/C16X.lean`) -/
+
+/-- no entry of `_buffer_out` is a generator object -/
+def allDone : List (Pend β) → Bool
+  | [] => true
+  | .done _ :: r => allDone r
+  | .gen :: _ => false
+
+/-- every entry of `_buffer_out` is a generator object -/
+def allGen : List (Pend β) → Bool
+  | [] => true
+  | .done _ :: _ => false
+  | .gen :: r => allGen r
+
+/-- `k` generator objects of the element iterated one after the other, now -/
+def iterReq (e : ElX σ α β) : Nat → σ → List β × σ
+  | 0, el => ([], el)
+  | k + 1, el => let r := e.req el; let q := iterReq e k r.2; (r.1 ++ q.1, q.2)
+
+/-- what a history leaves in `_buffer_out`, by where the adapter iterates the generators: results only
+(`atCall`), generator objects only (`atRequest`) -/
+def bufKind (ev : Eval) (l : List (Pend β)) : Bool :=
+  match ev with
+  | .atCall => allDone l
+  | .atRequest => allGen l
+
+/-- the history without its `reset()` calls -/
+def dropResets : List (OpX α) → List (OpX α)
+  | [] => []
+  | .reset :: r => dropResets r
+  | o :: r => o :: dropResets r
+
+/-- the counters `(_n_count, _buffer_in)` of an adapter -/
+def StX.counters (s : StX σ α β) : Nat × List α := (s.nCount, s.bufIn)
+
 end Lena.C16
